@@ -630,7 +630,7 @@ func first(a, _ []byte) []byte { return a }
 //@   requires liveRef(ref)
 //@   requires HeapOKN() && LinkedLive()
 //@   ensures[nil_iff_empty] (result == nil) == (ref.pointer == nil)
-//@   ensures[leaf] implies(result != nil, inT(result) && atype(result) == leafT())
+//@   ensures[leaf] implies(result != nil, inT(result) && atype(result) == leafT() && !pooled(result) && allocated(result))
 //@   assigns nothing
 //@   loop 1 (ref)
 //@     invariant liveRef(ref)
@@ -645,7 +645,7 @@ func first(a, _ []byte) []byte { return a }
 //@   requires liveRef(ref)
 //@   requires HeapOKN() && LinkedLive()
 //@   ensures[nil_iff_empty] (result == nil) == (ref.pointer == nil)
-//@   ensures[leaf] implies(result != nil, inT(result) && atype(result) == leafT())
+//@   ensures[leaf] implies(result != nil, inT(result) && atype(result) == leafT() && !pooled(result) && allocated(result))
 //@   assigns nothing
 //@   loop 1 (ref)
 //@     invariant liveRef(ref)
@@ -672,5 +672,5 @@ func first(a, _ []byte) []byte { return a }
 //@     invariant 0 <= idx && idx <= maxCmp
 //@     decreases maxCmp - idx
 //@   loop 2 (idx)
-//@     invariant 0 <= idx && implies(idx > 0 || maxCmp > 0, idx <= maxCmp || idx <= 10)
+//@     invariant 0 <= idx && depth + idx <= len(key)
 //@     decreases maxCmp - idx
